@@ -258,3 +258,13 @@ Definition poly_predict (degree : Z) (intercept : bool) (ys : list oq) (fh : lis
 Definition adapter_predict (n : Z) (dense : list oq) (fh : list Z) : res (list oq) :=
   let start := n - 1 + zfirst fh in
   index_all dense (map (fun r => n - 1 + r - start) fh).
+
+(* After fit(y1) (n0 observations) and update(y2, update_params=False) (k further observations, the
+   wrapped model is NOT refitted) the cutoff is the position n0+k-1 counted from the start of y1, while
+   the wrapped results still end at n0-1.  `dense` = wrapped_results.predict(start, end) for the
+   positions cutoff+fh[0] .. cutoff+fh[-1] counted from the start of y1 (statsmodels' own positions);
+   the adapter returns the entries labelled cutoff+r.  k = 0 is the plain fit/predict case. *)
+Definition adapter_predict_at (n0 k : Z) (dense : list oq) (fh : list Z) : res (list oq) :=
+  let cutoff := n0 + k - 1 in
+  let start := cutoff + zfirst fh in
+  index_all dense (map (fun r => cutoff + r - start) fh).
